@@ -1,5 +1,6 @@
 import SSV.Model.Repack
 import SSV.Proofs.Parsers
+import SSV.Proofs.ParsersSocks3
 /-
 C06 helper lemmas, part 8: the relays' re-pack step and the ss2022 TCP client's padding split never panic.
 -/
@@ -182,5 +183,65 @@ theorem connAddrFromSliceDC_nameFits {b : Bytes} {a : Addr} {n : Nat} (h : connA
   go_consts_at h
   go_cases h
   all_goals (obtain ⟨h1, h2⟩ := h; subst h1; first | rfl | (simp only [Addr.nameFits, decide_eq_true_eq]; omega))
+
+/-! #### accessor preconditions and the UDP ASSOCIATE session -/
+
+theorem np_resolveIPPort (resolve : Bytes → Option (Bool × Bytes)) (a : Addr) (hv : a.isValid = true) :
+    NoPanic (a.resolveIPPort resolve) := by
+  cases a with
+  | none => simp [Addr.isValid] at hv
+  | ip4 _ _ => simp [Addr.resolveIPPort]
+  | ip6 _ _ => simp [Addr.resolveIPPort]
+  | dom d p =>
+    simp only [Addr.resolveIPPort]
+    split
+    · simp
+    · simp
+
+theorem s5ClientRequest_valid {cmd : UInt8} {enc : Bytes} {st st' : S5} {a : Addr}
+    (h : s5ClientRequest cmd enc st = .ok (st', a)) : a.isValid = true := by
+  unfold s5ClientRequest at h
+  split at h
+  · simp at h
+  · obtain ⟨s1, _, h⟩ := bind_eq_ok h
+    obtain ⟨s2, _, h⟩ := bind_eq_ok h
+    obtain ⟨s3, _, h⟩ := bind_eq_ok h
+    obtain ⟨tail, _, h⟩ := bind_eq_ok h
+    split at h
+    · simp at h
+    · obtain ⟨s4, _, h⟩ := bind_eq_ok h
+      obtain ⟨s5, _, h⟩ := bind_eq_ok h
+      obtain ⟨v, _, h⟩ := bind_eq_ok h
+      split at h
+      · simp at h
+      · obtain ⟨_, _, h⟩ := bind_eq_ok h
+        obtain ⟨pre, _, h⟩ := bind_eq_ok h
+        obtain ⟨⟨sa, rest⟩, _, h⟩ := bind_eq_ok h
+        dsimp only at h
+        obtain ⟨⟨a', n⟩, ha, h⟩ := bind_eq_ok h
+        dsimp only at h
+        obtain ⟨rep, _, h⟩ := bind_eq_ok h
+        split at h
+        · simp at h
+        · simp only [pure_eq, Outcome.ok.injEq, Prod.mk.injEq] at h
+          rw [← h.2]
+          exact (connAddrFromSlice_ok ha).2
+
+theorem s5Client_valid {auth : Bool} {authMsg : Bytes} {cmd : UInt8} {enc stream : Bytes} {a : Addr}
+    (h : s5Client auth authMsg cmd enc stream = .ok a) : a.isValid = true := by
+  unfold s5Client at h
+  obtain ⟨st1, _, h⟩ := bind_eq_ok h
+  obtain ⟨st2, _, h⟩ := bind_eq_ok h
+  obtain ⟨⟨st3, a'⟩, h3, h⟩ := bind_eq_ok h
+  simp only [pure_eq, Outcome.ok.injEq] at h
+  rw [← h]
+  exact s5ClientRequest_valid h3
+
+theorem np_s5UDPNewSession (auth : Bool) (authMsg : Bytes) (resolve : Bytes → Option (Bool × Bytes)) (stream : Bytes) :
+    NoPanic (s5UDPNewSession auth authMsg resolve stream) := by
+  unfold s5UDPNewSession
+  refine noPanic_bind (np_s5Client auth authMsg _ _ (by simp [Gen.C06.MaxAddrLen]) stream) ?_
+  intro bnd h
+  exact np_resolveIPPort resolve bnd (s5Client_valid h)
 
 end SSV.Parsers.Proofs
